@@ -1905,6 +1905,11 @@ void Token::printValueFlow(const std::vector<std::string>& files, bool xml, std:
                 outs += " path=\"";
                 outs += MathLib::toString(value.path);
                 outs += "\"";
+#ifdef DANMAR_CPPCHECK_VERIF
+                outs += " indirect=\"";
+                outs += std::to_string(value.indirect);
+                outs += "\"";
+#endif
 
                 outs += "/>\n";
             }
